@@ -91,6 +91,45 @@ theorem C17_renew_enabled (c : Cfg) (hm : 1 ≤ c.m) (hn : 1 ≤ c.n) (s : State
   | some s2 => exact ⟨_, _, h1, h2⟩
   | none => simp [step, hq, hu] at h2
 
+/-- **The helper queues never block and `put_end` never fails.**  A supplier that has not yet called
+    `put_end` in this round finds a token in `spare` (so the "called more than `num_suppliers`
+    times" error cannot occur under the protocol), `applied.put` / `used.put` find room,
+    `applied.get` finds a token, and a consumer's `put(None)` finds the data queue empty (it never
+    blocks, whatever the bound `cap ≥ 1`). -/
+theorem C17_token_ops_enabled (c : Cfg) (hm : 1 ≤ c.m) (hn : 1 ≤ c.n) (s : State) (hr : Reachable c s) :
+    (∀ (i : Nat) (a : Sup), s.sups[i]? = some a → a.pc = .idle → (step c s (.sEndBeg i)).isSome = true) ∧
+    (∀ (i : Nat) (a : Sup), s.sups[i]? = some a → a.pc = .pe1 → (step c s (.sApply i)).isSome = true) ∧
+    (∀ (j : Nat) (a : Con), s.cons[j]? = some a → a.pc = .take → (step c s (.cTake j)).isSome = true) ∧
+    (∀ (j : Nat) (a : Con), s.cons[j]? = some a → a.pc = .give → (step c s (.cGive j)).isSome = true) ∧
+    (∀ (j : Nat) (a : Con), s.cons[j]? = some a → (a.pc = .reput ∨ a.pc = .extra) → s.queue = []) := by
+  have hi := all_reachable c hm hn hr
+  have hE := ind_le s.extraOut
+  refine ⟨?_, ?_, ?_, ?_, fun j a h hp => put_none_room c s hi j a h hp⟩
+  · intro i a h hpc
+    have h1 := cntS_ge SPc.notStarted h
+    have h2 := hi.spareEq
+    simp only [hpc, SPc.notStarted, ind_true] at h1
+    have : 0 < s.spare := by omega
+    simp [step, h, hpc, this]
+  · intro i a h hpc
+    have h1 := cntS_ge SPc.isPe1 h
+    have h2 := hi.tok
+    simp only [hpc, SPc.isPe1, ind_true] at h1
+    have : s.applied < c.m := by omega
+    simp [step, h, hpc, this]
+  · intro j a h hpc
+    have h1 := cntC_ge CPc.isTake h
+    have h2 := hi.mkr; have h3 := hi.wLt; have h4 := hi.lkT
+    simp only [hpc, CPc.isTake, ind_true] at h1
+    have : 0 < s.applied := by omega
+    simp [step, h, hpc, this]
+  · intro j a h hpc
+    have h1 := cntC_ge CPc.isGive h
+    have h2 := hi.tok
+    simp only [hpc, CPc.isGive, ind_true] at h1
+    have : s.used < c.m := by omega
+    simp [step, h, hpc, this]
+
 /-- **Stop is answered within one wait interval.**  Let a stop have been requested at clock `ts`.
     (1) Whoever is still inside a blocking `get`/`put` (consumer, supplier, or `renew`) has been
     there for at most one wait interval `w` counted from the later of the stop request and the
